@@ -704,6 +704,32 @@ def run_world(ctx, world, workdir):
         check_pairs(ctx, pairs, parent_seq, file_bio.seq, log)
         check_numbers_and_references(ctx, view, pairs, file_bio, log)
         check_reload(ctx, view, record, file_bio, log, case)
+    # --- history: the record gains a feature inside a region after its file was written; the file written next (per
+    # call, as the first time) has to show the record as it is now, not as it was at the first conversion
+    if mode == "per-call":
+        for region in regions:
+            if region.crosses_origin() or len(region.location) < 12:
+                continue
+            start = int(region.location.start) + 2
+            marker = Feature(FeatureLocation(start, start + 6, 1), feature_type="misc_feature")
+            marker.notes.append("added after the first write")
+            facts = {"history": "feature added to the record between two per-call writes of the region",
+                     "region": str(region.location), "mode": mode, "added": str(marker.location)}
+            filename = os.path.join(workdir, "region-second-write.gbk")
+            try:
+                record.add_feature(marker)
+                region.write_to_genbank(filename=filename)
+                file_bio = SeqIO.read(filename, "genbank")
+            except Exception as err:  # pylint: disable=broad-except
+                ctx.violate("write-crash", dict(facts, **core.crash_facts(err)), case)
+                break
+            ctx.count("history:second-write-after-record-gained-a-feature")
+            shift = int(region.location.start)
+            found = [f for f in file_bio.features if f.type == "misc_feature"
+                     and "added after the first write" in f.qualifiers.get("note", [])]
+            if len(found) != 1 or (int(found[0].location.start), int(found[0].location.end)) != (start - shift, start + 6 - shift):
+                ctx.violate("feature-missing-from-file", dict(facts, found=[str(f.location) for f in found]), case)
+            break
     ctx.case(W.world_key(world), nontrivial=nontrivial,
              sample={"L": length, "circular": world["circular"], "origin": world["origin_kind"], "mode": mode,
                      "genes": len(world["genes"]), "protoclusters": len(world["protoclusters"]),
